@@ -714,7 +714,7 @@ def run(ck, F, tier):
     ck.explanation = ('C14 decided for the effect discipline and the bit assembly: A who may move the position (mod/ref summaries + dominance in skip_bits), B/T4 look-aheads '
                       'and transactions restore the checkpoint on the right paths, C reads are peek-then-skip with one n, E structural forms of the '
                       'arithmetic helpers (pattern match on def-use expressions), F the start-code scan, G VLC walk + all 6 tables acyclic. '
-                      'H the MSB-first assembly loop of peek_bits (transfer function tabulated). History-level exactly-once delivery follows from A-H by induction over the operations (an argument, DESIGN.md 11.11).')
+                      'H the MSB-first assembly loop of peek_bits (transfer function tabulated); W its width prologue for every width incl. 0 and too wide. History-level exactly-once delivery follows from A-H by induction over the operations (an argument, DESIGN.md 11.11).')
     ck.assumptions += ['VecDeque len/push_back/drain/iter semantics', 'VecDeque::iter visits the buffered bytes in insertion order']
     a_who_moves(ck, F)
     b_lookahead(ck, F)
